@@ -16,7 +16,9 @@ package main
 // Flags for driver and judge: +m<k>/+r<k> = the VM model / the reference run the first k
 // texts; +e<i>=<v> = closed form of text i; +space = every self call of the shape is in
 // tail position, so the spec demands that every probe site reports ONE depth triple over all
-// texts of the history (independent of the recursion depth); +w<sec> = watchdog.
+// texts of the history (independent of the recursion depth); +t<i>=<j> = text j is text i
+// with the function bound by (def ff (fn …)) — the same function without the optimisation —
+// and both must report the same class, value and trace; +w<sec> = watchdog.
 
 import (
 	"fmt"
@@ -137,6 +139,7 @@ func (t *tailgen) wrap(c tailctx, x string) string {
 type tailshape struct {
 	name   string
 	defs   string
+	twin   bool // also define `ff`, the same function bound by (def ff (fn …)): no call in its body is a self tail call
 	call   func(n int64) string
 	closed func(n int64) string // "" = none
 	space  bool
@@ -158,13 +161,46 @@ const (
 	tailModelMax = 1000
 )
 
+// the unoptimised twin of a definition text: every `(defn f [..] body)` becomes
+// `(def ff (fn [..] body'))` with the calls of f renamed; an anonymous function is compiled
+// under a generated name, so none of its calls is a self tail call.
+func tailTwinDefs(defs string) string {
+	i := strings.Index(defs, "(defn f [")
+	if i < 0 {
+		return ""
+	}
+	body := strings.ReplaceAll(defs[i+len("(defn f ["):], "(f ", "(ff ")
+	return "(def ff (fn [" + body + ")"
+}
+
 func (t *tailgen) emit(s tailshape) {
 	g := t.g
-	texts := []string{tailTilde(s.defs)}
+	defs := s.defs
+	twinDefs := ""
+	if s.twin {
+		twinDefs = tailTwinDefs(s.defs)
+		if twinDefs != "" {
+			defs += " " + twinDefs
+			g.Count("history with unoptimised twin")
+		}
+	}
+	texts := []string{tailTilde(defs)}
 	flags := []string{}
 	m, r := 1, 1
 	wall := 20
 	for _, n := range s.depths {
+		if twinDefs != "" && n <= 1000 {
+			// the twin call right before the optimised one (same interpreter state for both)
+			idx := len(texts)
+			texts = append(texts, tailTilde(strings.ReplaceAll(s.call(n), "(f ", "(ff ")))
+			flags = append(flags, fmt.Sprintf("+t%d=%d", idx+1, idx))
+			if n <= tailModelMax {
+				m = idx + 1
+			}
+			if n <= tailRefMax {
+				r = idx + 1
+			}
+		}
 		idx := len(texts)
 		texts = append(texts, tailTilde(s.call(n)))
 		if n <= tailModelMax {
@@ -265,7 +301,7 @@ func (t *tailgen) accumulator(nInner, nOuter int, allowNonTail bool, depths []in
 			}
 		}
 	}
-	return tailshape{name: "accumulator", defs: defs, call: call, closed: closed, space: allIn && allOut, depths: depths}
+	return tailshape{name: "accumulator", twin: !t.eff, defs: defs, call: call, closed: closed, space: allIn && allOut, depths: depths}
 }
 
 // closure collector: closures made in every iteration, kept in an array (append) or a list
@@ -316,7 +352,7 @@ func (t *tailgen) collector(nInner int) tailshape {
 		}
 		return "[" + strings.Join(parts, " ") + "]"
 	}
-	return tailshape{name: fmt.Sprintf("closure collector %d", variant), defs: defs, call: call, closed: closed, space: true, depths: depthsClosure}
+	return tailshape{name: fmt.Sprintf("closure collector %d", variant), twin: true, defs: defs, call: call, closed: closed, space: true, depths: depthsClosure}
 }
 
 // variadic function: the rest parameter is re-packed by PrepareCall in every iteration
@@ -343,7 +379,7 @@ func (t *tailgen) variadic(nInner int, depths []int64) tailshape {
 		}
 		return fmt.Sprint(tailSumTo(n) + int64(extra))
 	}
-	return tailshape{name: "variadic", defs: defs, call: call, closed: closed, space: true, depths: depths}
+	return tailshape{name: "variadic", twin: true, defs: defs, call: call, closed: closed, space: true, depths: depths}
 }
 
 // traces: the order of effects around the tail call (small depths only)
@@ -357,7 +393,7 @@ func (t *tailgen) traced(nInner int) tailshape {
 	}
 	defs := fmt.Sprintf("(defn f [n a] (trace (+ a 0)) (cond (== n 0) a %s))", inner)
 	call := func(n int64) string { return fmt.Sprintf("(f %d 0)", n) }
-	return tailshape{name: "traced", defs: defs, call: call, space: all, depths: []int64{0, 1, 2, 5, 30}}
+	return tailshape{name: "traced", twin: true, defs: defs, call: call, space: all, depths: []int64{0, 1, 2, 5, 30}}
 }
 
 // Hand-written histories, run first on every check.
@@ -397,16 +433,22 @@ var tailArityErr = []string{
 	"(defn g [a & r] (cond (> a 0) (g 0 1 2) (len r))) (g 1) (g 0)",
 }
 
-// Inputs on which the unrepaired tree breaks C09; each is repaired by a proposed fix
-// (fixes/C09-*) and listed in notes/C09.known.json under its exact op line.
-var tailKnown = []string{
-	// C09-01 tail flag leaks into non-tail positions of a form that is itself in tail position
+// Inputs on which earlier trees broke C09 (repaired in /repo by 5554b40 and c9a2ccf).
+var tailRepaired = []string{
+	// the tail flag leaked into non-tail positions of a form that is itself in tail position
 	"(defn f [n] (let [a (cond (== n 0) 0 (f (- n 1)))] (+ a 1))) (f 0) (f 3)",
 	"(defn f [n] (letseq [a (cond (== n 0) 0 (f (- n 1)))] (+ a 1))) (f 0) (f 3)",
 	"(defn f [n] (cond (== n 0) 0 [(f (- n 1))])) (f 0) (f 2)",
 	"+space (defn f [n] (probe 1) (let [a (def b 1)] (cond (== n 0) 0 (f (- n 1))))) (f 0) (f 3) (f 50)",
-	// C09-02 arity of a self tail call
+	// arity of a self tail call
 	"+w5 +f20000 (defn g [a] (cond (> a 0) (g 0 7) a)) (g 1)",
+}
+
+// Inputs on which the current tree breaks C09 (notes/C09.known.json, keyed by op line; each is
+// repaired by a proposed fix). `+t<i>=<j>`: text i and its unoptimised twin j must agree.
+var tailKnown = []string{
+	// C09-01: the target of an assignment is compiled with the tail flag of the assignment
+	"+t4=3 (defn f [n] (cond (== n 0) 0 (set (f (- n 1)) 5))) (def ff (fn [n] (cond (== n 0) 0 (set (ff (- n 1)) 5)))) (ff 0) (ff 2) (f 2)",
 }
 
 func tailFixedOp(s string) string {
@@ -453,6 +495,10 @@ func tailGen(g *Gen) {
 	for _, s := range tailArityErr {
 		g.Emit("%s", tailFixedOp(s))
 		g.Count("fixed")
+	}
+	for _, s := range tailRepaired {
+		g.Emit("%s", tailFixedOp(s))
+		g.Count("fixed (repaired earlier)")
 	}
 	for _, s := range tailKnown {
 		g.Emit("%s", tailFixedOp(s))
